@@ -1332,6 +1332,11 @@ where
 		if tx.amount_debited != 0 && tx.amount_credited != 0 {
 			continue;
 		}
+		// a reverted payment that is mined again is confirmed through its output (which turns
+		// Unspent again and the entry back into a received one), never by its kernel alone
+		if tx.tx_type == TxLogEntryType::TxReverted {
+			continue;
+		}
 		if let Some(e) = tx.kernel_excess {
 			let res = client.get_kernel(&e, tx.kernel_lookup_min_height, Some(height));
 			let kernel = match res {
